@@ -278,6 +278,13 @@ def _eval(case):
         spec = spec_of(gd, case["seed"])
         cls, rep = reps_for(spec, case["tier"])[case["rep"]]
         msgs, info = SQ.run(spec, rep, case["steps"], direct=(gd[0] == "slam"))
+        if cls == "relabel" and not msgs:
+            # ids must not decide which vertex fix_first_pose anchors
+            m2, i2 = SQ.run(spec, rep, min(case["steps"], 1), direct=False, ffp=True)
+            msgs += ["[fix_first_pose=True, no vertex pre-marked] " + m for m in m2]
+            info["squares"] += i2["squares"]
+            info["states"] += i2["states"]
+            info["ratio"] = max(info["ratio"], i2["ratio"])
         classes = {"R:" + cls, "slam_family" if gd[0] == "slam" else "shape_family"}
         for v in spec["vertices"]:
             classes.add("kind:" + v["kind"])
